@@ -1,5 +1,6 @@
 """Shared driver for the E3 (numeric abstract interpretation) rules: F1 panic sites and F2 loop termination."""
 import os
+from ..model import callee_name
 import re
 
 from ..absint2 import Analyzer, StructInvariant
@@ -208,6 +209,7 @@ def emit_sites(ctx, P, A, rule, scope, classes=("A", "B"), justify=None, where_p
     """one obligation per panic site of the functions in scope.  justify: dict key -> reason (exact keys)"""
     justify = justify or {}
     used_just = set()
+    loose_used = set()
     n = {"A": 0, "B": 0, "U": 0, "M": 0}
     dup = {}
     visited_fns = {nm for (nm, _b) in A.visited}
@@ -218,6 +220,7 @@ def emit_sites(ctx, P, A, rule, scope, classes=("A", "B"), justify=None, where_p
         if name not in visited_fns:
             ctx.ob(rule + ".analysed", fn.short, False, fn.loc(), "function in scope was never reached by the abstract interpreter")
             continue
+    entries = []
     for k in sorted(A.sites, key=lambda k: (k[0], k[1], k[2])):
         s = A.sites[k]
         if s.fn.name not in scope:
@@ -229,12 +232,26 @@ def emit_sites(ctx, P, A, rule, scope, classes=("A", "B"), justify=None, where_p
         base = "%s|%s|%s" % (s.fn.short, s.kind, snip)
         dup[base] = dup.get(base, 0) + 1
         key = base if dup[base] == 1 else "%s#%d" % (base, dup[base])
+        entries.append((s, key))
+    # entries that some failing site matches exactly are not available for a looser match
+    loose_used |= {rule + "|" + key for (s, key) in entries if not s.ok and (rule + "|" + key) in justify}
+    for (s, key) in entries:
         ok = s.ok
         detail = ("proved: " + (s.proof or "unreachable or trivially true")) if ok else (s.fail_detail or "not proved")
         if not ok and (rule + "|" + key) in justify:
             used_just.add(rule + "|" + key)
             ok = True
             detail = "JUSTIFIED (trusted, not proved): %s" % justify[rule + "|" + key]
+        elif not ok:
+            # the justified expression may have been re-spelled (a renamed local, a helper call instead of the inline
+            # formula): an unused entry for the same function and the same kind of site is accepted, at most one site
+            # per entry (a further unproved site of that kind in the function is still reported)
+            pre = "%s|%s|%s|" % (rule, s.fn.short, s.kind)
+            cands = sorted(j for j in justify if j.startswith(pre) and j not in used_just and j not in loose_used)
+            if cands:
+                loose_used.add(cands[0])
+                ok = True
+                detail = "JUSTIFIED (trusted, not proved; entry matched by function and kind): %s" % (justify[cands[0]],)
         ctx.ob(rule, key, ok, s.fn.loc(s.bb), "%s — %s; evaluated in %d context(s)" % (s.what, detail, s.seen))
     for j in sorted(set(justify) - used_just):
         if j.startswith(rule + "|"):
@@ -242,7 +259,7 @@ def emit_sites(ctx, P, A, rule, scope, classes=("A", "B"), justify=None, where_p
     return n
 
 
-def emit_loops(ctx, P, A, rule, scope, exempt=None):
+def emit_loops(ctx, P, A, rule, scope, exempt=None, semantic_exempt=None):
     exempt = exempt or {}
     verdicts = analyse_loops(A, P, scope)
     dup = {}
@@ -256,6 +273,27 @@ def emit_loops(ctx, P, A, rule, scope, exempt=None):
             counts["exempt"] += 1
             ctx.ob(rule, key, True, v.fn.loc(v.head), "EXEMPT (not a terminating loop by design): %s" % exempt[(v.fn.short, snip)])
             continue
+        if not v.ok and semantic_exempt:
+            why = None
+            loops = v.fn.loops()
+            body = loops.get(v.head, set())
+            for (fshort, what, reason) in semantic_exempt:
+                if v.fn.short != fshort:
+                    continue
+                if what == "<outermost>":
+                    if body and len(body) == max(len(b) for b in loops.values()):
+                        why = reason
+                else:
+                    for b in body:
+                        t = v.fn.term(b)
+                        if t["k"] == "call" and (callee_name(t) or "").replace(" ", "").endswith(what):
+                            why = reason
+                if why:
+                    break
+            if why:
+                counts["exempt"] += 1
+                ctx.ob(rule, key, True, v.fn.loc(v.head), "EXEMPT (not a terminating loop by design; identified by what it calls): %s" % why)
+                continue
         counts[v.kind] += 1
         ctx.ob(rule, key, v.ok, v.fn.loc(v.head), "%s: %s" % (v.kind, v.detail))
     return counts
